@@ -14,7 +14,8 @@
                                                                             short_plaintext_roundtrip (legacy files with stripped zeros),
                                                                             update_then_read, update_then_unlock (file = last write),
                                                                             write_without_truncation_leaves_residue,
-                                                                            unlocked_key_is_stored_key (the key Sign* uses, over unlock histories)
+                                                                            unlocked_key_is_stored_key (the key Sign* uses, over unlock histories),
+                                                                            indefinite_unlock_survives
     "with any other passphrase unlocking fails with an error"              wrong_pass_rejected, wrong_pass_never_unlocks
     "after modification of ciphertext, MAC, salt, KDF parameters ..."      tamper_ct_mac_salt_params_rejected,
                                                                             tamper_ct_rejected, tamper_mac_rejected
@@ -477,6 +478,27 @@ theorem unlocked_key_is_stored_key (P : Prims) (hinj : ∀ d d', P.addrOf d = P.
     obtain ⟨f, pw, _, hg⟩ := hfin a k0 t hu
     exact ((getKey_ok_iff P a f pw k0).mp hg).2
 
+/-- The step the harness histories replay through the driver: an account that is unlocked INDEFINITELY keeps exactly its live
+    key through any further Unlock / TimedUnlock, right or wrong passphrase (the fresh copy is the one discarded) — and
+    `Lock` / expiry empties the entry, so signing answers ErrLocked. -/
+theorem indefinite_unlock_survives (P : Prims) (s : KsState) (a pw : Bytes) (timed : Bool) (k : Key)
+    (h : s.unlocked a = some (k, false)) :
+    (s.step P (.unlock a pw timed)).unlocked a = some (k, false) ∧
+    (s.step P (.unlock a pw timed)).signingKey a = some k ∧ (s.step P (.lock a)).signingKey a = none := by
+  have h1 : (s.step P (.unlock a pw timed)).unlocked a = some (k, false) := by
+    simp only [KsState.step]
+    cases hst : s.store a with
+    | none => simpa using h
+    | some f =>
+      simp only [Option.map_some]
+      cases hg : getKey P a f pw with
+      | err e => simpa using h
+      | panic => simpa using h
+      | ok k' => simp only [h]
+  refine ⟨h1, ?_, ?_⟩
+  · simp [KsState.signingKey, h1]
+  · simp [KsState.signingKey, KsState.step]
+
 /-! ## 5. Bare DecryptKey and KeyStore.Import: the file's own address authenticates what the MAC does not cover -/
 
 /-- What a73be14 added: whenever `DecryptKey` succeeds on a file that names an address, the returned key HAS that address. -/
@@ -857,6 +879,10 @@ example : ((([KsOp.unlock (toyP.addrOf 5) (ascii "pw") false, .unlock (toyP.addr
     some ⟨5, toyP.addrOf 5⟩ := by decide
 example : ((([KsOp.unlock (toyP.addrOf 5) (ascii "pw") false, .lock (toyP.addrOf 5)] : List KsOp).foldl (KsState.step toyP) wState).signingKey
     (toyP.addrOf 5)) = none := by decide
+
+/-- indefinite_unlock_survives: the hypothesis holds after an indefinite unlock of the witness account. -/
+example : (wState.step toyP (.unlock (toyP.addrOf 5) (ascii "pw") false)).unlocked (toyP.addrOf 5) = some (⟨5, toyP.addrOf 5⟩, false) := by
+  decide
 
 /-- tamper_never_yields_other_key / getKey_rejects_iv_tamper: hypotheses satisfiable. -/
 example : getKey toyP (toyP.addrOf 5) wFile (ascii "pw") = .ok ⟨5, toyP.addrOf 5⟩ := by decide
